@@ -17,7 +17,8 @@ Scope: every program point except the re-guess loop of the two index-based calls
 results do not: `c15_pub_guess_exact`, `c15_cancel_guess` in `Props/C15.lean`, `c15_pub32_exact` below).
 Window hypotheses (`Win`): `N ∣ 2^32`, `N < 2^31`, fewer than `2^31` claims outstanding — derived from a bound on the number of
 threads by `c15_window_of_threads` — and no exact multiple of 2^32 events between the two loads of the emptiness re-check
-(`noABA`: the only place where the code compares two counters loaded at different instants).
+(`noABA`: the only place where the code compares two counters loaded at different instants), fewer than 2^31 events consumed past
+a producer's own between its publication and its length measurement (`noLag`: the signed cast of `len_after_publishing`).
 -/
 
 namespace Mutiny.Ring32
@@ -56,10 +57,11 @@ theorem c15_same_payloads (s : St) :
     `N + T < 2^31` (each thread holds at most one claim) -/
 theorem c15_window_of_threads (s : St) (h : Inv s) (T : Nat) (hT : ∀ t, T ≤ t → s.thr t = .idle)
     (hN : M32 % s.N = 0) (hb : s.N + T < 2147483648)
-    (hABA : ∀ t hh w, s.thr t = .cChkTail hh w → s.tail < hh + M32) : Win s := by
+    (hABA : ∀ t hh w, s.thr t = .cChkTail hh w → s.tail < hh + M32)
+    (hLag : ∀ t id, s.thr t = .pLen id → s.head ≤ id + 1 + 2147483648) : Win s := by
   obtain ⟨h1, h2⟩ := claims_le_threads s h T hT
   have := h.hTN
-  exact ⟨hN, by omega, by omega, by omega, hABA⟩
+  exact ⟨hN, by omega, by omega, by omega, hABA, hLag⟩
 
 /-- index-based publication at any counter magnitude: whatever lap the `u32` guess comes from, a successful CAS of the
     `u32` machine (`tail32 = guess32`, with the guess congruent to the slot index) publishes the caller's OWN sequence number:
@@ -77,15 +79,16 @@ theorem c15_pub32_exact (s : St) (t id idx g g32 : Nat) (h : Inv s) (w : Win s) 
 
 /-- the hypotheses are satisfiable: a fresh ring of size 4 is in the window, and so is every state a 3-thread execution
     reaches (by `c15_window_of_threads`) -/
-example : Win (Ring.init 4) := ⟨by decide, by decide, by decide, by decide, fun _ _ _ h => by simp [Ring.init] at h⟩
+example : Win (Ring.init 4) :=
+  ⟨by decide, by decide, by decide, by decide, fun _ _ _ h => by simp [Ring.init] at h, fun _ _ h => by simp [Ring.init] at h⟩
 
 /-- a concrete run checked against the machine: three sends and two receives on a ring whose counters start 2 below the
     wrap (`init32 4 (2^32 - 4)` is the image of a ring that transported 2^32 - 4 events): accepted, accepted, accepted,
     delivered in order, counters wrapped to 0 and beyond, no panic -/
 example :
     (run32 (init32 4 4294967292)
-      [.send 0 11, .step 0, .step 0, .step 0, .step 0, .ack 0, .send 0 22, .step 0, .step 0, .step 0, .step 0, .ack 0,
-       .send 0 33, .step 0, .step 0, .step 0, .step 0, .ack 0, .send 0 44, .step 0, .step 0, .step 0, .step 0, .ack 0,
+      [.send 0 11, .step 0, .step 0, .step 0, .step 0, .step 0, .ack 0, .send 0 22, .step 0, .step 0, .step 0, .step 0, .step 0, .ack 0,
+       .send 0 33, .step 0, .step 0, .step 0, .step 0, .step 0, .ack 0, .send 0 44, .step 0, .step 0, .step 0, .step 0, .step 0, .ack 0,
        .send 0 55, .step 0, .step 0, .step 0, .ack 0,
        .recv 1, .step 1, .step 1, .step 1, .step 1, .ack 1, .recv 1, .step 1, .step 1, .step 1, .step 1]).map
       (fun s => (s.head, s.tail, s.enqTail, s.thr 1, s.delivered.map (·.2.2)))
